@@ -229,6 +229,9 @@ theorem g2_with_slots (st : St) (l : List SlotRec) : G2 st { st with slots := l 
 theorem g2_with_errno (st : St) (e : Int) : G2 st { st with errno := e } := G2.of_eq rfl rfl
 theorem g2_with_children (st : St) (l : List Proc) : G2 st { st with children := l } := G2.of_eq rfl rfl
 theorem g2_with_status (st : St) (x : Status) : G2 st { st with status := x } := G2.of_eq rfl rfl
+theorem g2_with_stillRunning (st : St) (b : Bool) : G2 st { st with stillRunning := b } := G2.of_eq rfl rfl
+theorem g2_with_inRun (st : St) (b : Bool) : G2 st { st with inRun := b } := G2.of_eq rfl rfl
+theorem g2_run_flags (st : St) : G2 st { st with stillRunning := true, inRun := true, runPolls := 0 } := G2.of_eq rfl rfl
 
 theorem g2_watchLater (st : St) (flags : Nat) (slot : Int) (puser : Nat) : G2 st (watchLater st flags slot puser).1 := by
   unfold watchLater
@@ -567,6 +570,7 @@ theorem step_runAct (st : St) (act : Act) : SigStep st (runAct st act) := by
         · exact SigStep.refl _
         · exact (g2_with_children _ _).step
       · exact SigStep.refl _
+    · exact (g2_with_stillRunning _ _).step
     · exact SigStep.refl _
 
 theorem step_runActs (acts : List Act) : ∀ st : St,
@@ -669,6 +673,30 @@ theorem step_onSigchld (fuel : Nat) : ∀ (st : St) (this : Option Nat), SigStep
         · exact (g2_fail _ _).step
         · exact (step_procStep _ _).trans (ih _ _)
 
+theorem step_procSnapLoop (l : List Nat) : ∀ st : St, SigStep st (procSnapLoop st l) := by
+  induction l with
+  | nil => intro st; exact SigStep.refl st
+  | cons a rest ih =>
+    intro st
+    unfold procSnapLoop
+    split
+    · exact SigStep.refl _
+    · split
+      · exact (g2_fail _ _).step
+      · split
+        · exact ih _
+        · split
+          · exact (g2_fail _ _).step
+          · exact (step_procStep _ _).trans (ih _)
+
+theorem step_onSigchldAny (fuel : Nat) (st : St) : SigStep st (onSigchldAny fuel st) := by
+  unfold onSigchldAny
+  split
+  · split
+    · exact (g2_fail _ _).step
+    · exact step_procSnapLoop _ _
+  · exact step_onSigchld _ _ _
+
 /-- The callback of a signal watch (the harness's, `on_sigchld`, or `on_sigwinch`). -/
 theorem step_sigCb (fuel : Nat) (st : St) (a : Nat) (s : Int) : SigStep st (sigCb fuel st a s) := by
   unfold sigCb
@@ -676,8 +704,10 @@ theorem step_sigCb (fuel : Nat) (st : St) (a : Nat) (s : Int) : SigStep st (sigC
   · split
     · exact step_fireUser _ _ _ _
     · split
-      · exact step_onSigchld _ _ _
-      · exact SigStep.refl _
+      · exact step_onSigchldAny _ _
+      · split
+        · exact (g2_with_stillRunning _ _).step
+        · exact SigStep.refl _
   · exact SigStep.refl _
 
 theorem step_sigwatchLoopT (fuel : Nat) : ∀ (st : St) (s : Int) (this : Option Nat), SigStep st (sigwatchLoopT fuel st s this).1 := by
@@ -798,6 +828,30 @@ theorem step_invokeTimers (fuel : Nat) (st : St) : SigStep st (invokeTimers fuel
   · exact SigStep.refl _
   · exact ((g2_with_laters st []).step.trans (step_timerPhase _ _)).trans (step_laterLoop _ _)
 
+theorem step_sigSnapLoopT (fuel : Nat) (s : Int) (l : List Nat) : ∀ st : St, SigStep st (sigSnapLoopT fuel st s l).1 := by
+  induction l with
+  | nil => intro st; exact SigStep.refl st
+  | cons a rest ih =>
+    intro st
+    unfold sigSnapLoopT
+    split
+    · exact SigStep.refl _
+    · split
+      · exact (g2_fail _ _).step
+      · split
+        · exact ih _
+        · split
+          · exact (g2_fail _ _).step
+          · exact (step_sigCb _ _ _ _).trans (ih _)
+
+theorem step_sigDispatch (fuel : Nat) (st : St) (s : Int) : SigStep st (sigDispatch fuel st s) := by
+  unfold sigDispatch
+  split
+  · split
+    · exact (g2_fail _ _).step
+    · exact step_sigSnapLoopT _ _ _ _
+  · exact step_sigwatchLoopT _ _ _ _
+
 theorem step_dispatchLoop (fuel : Nat) (pending : List Int) (l : List Int) : ∀ st : St, SigStep st (dispatchLoop fuel st pending l) := by
   induction l with
   | nil => intro st; exact SigStep.refl st
@@ -806,7 +860,7 @@ theorem step_dispatchLoop (fuel : Nat) (pending : List Int) (l : List Int) : ∀
     unfold dispatchLoop
     refine SigStep.trans ?_ (ih _)
     split
-    · exact step_sigwatchLoopT _ _ _ _
+    · exact step_sigDispatch _ _ _
     · exact SigStep.refl _
 
 theorem g2_with_pendingSig (st : St) (l : List Int) : G2 st { st with pendingSig := l } := G2.of_eq rfl rfl
@@ -823,12 +877,12 @@ theorem step_ioCb (st : St) (s : PollSlot) : SigStep st (ioCb st s) := by
     · exact step_invokeWatch _ _ _ _
   · exact SigStep.refl _
 
-theorem step_ioLoop (fuel : Nat) : ∀ (st : St) (idx : Nat), SigStep st (ioLoop fuel st idx) := by
+theorem step_ioLoopT (fuel : Nat) : ∀ (st : St) (idx : Nat), SigStep st (ioLoopT fuel st idx).1 := by
   induction fuel with
-  | zero => intro st idx; unfold ioLoop; exact step_outOfFuel st
+  | zero => intro st idx; unfold ioLoopT; exact step_outOfFuel st
   | succ n ih =>
     intro st idx
-    unfold ioLoop
+    unfold ioLoopT
     split
     · exact SigStep.refl _
     · split
@@ -838,6 +892,8 @@ theorem step_ioLoop (fuel : Nat) : ∀ (st : St) (idx : Nat), SigStep st (ioLoop
         · split
           · exact ih _ _
           · exact (step_ioCb _ _).trans (ih _ _)
+
+theorem step_ioLoop (fuel : Nat) (st : St) (idx : Nat) : SigStep st (ioLoop fuel st idx) := step_ioLoopT fuel st idx
 
 theorem g2_foldl_raiseSig (l : List Int) : ∀ st : St, G2 st (l.foldl raiseSig st) := by
   induction l with
@@ -901,6 +957,48 @@ theorem step_tick (fuel : Nat) (st : St) (nohang : Bool) : SigStep st (tick fuel
       · exact ((g2_nextTimerMsec _).trans (g2_ppoll _ _)).step
       · exact ((g2_nextTimerMsec _).trans (g2_ppoll _ _)).step.trans (step_tickAfterPoll _ _ _)
 
+theorem g2_ppollRun (st : St) (t : Option Int) : G2 st (ppollRun st t).1 := by
+  unfold ppollRun
+  split
+  · exact g2_ppoll _ _
+  · split
+    · exact ((g2_ppoll st t).trans (G2.of_eq rfl rfl : G2 (ppoll st t).1
+        { (ppoll st t).1 with runPolls := (ppoll st t).1.runPolls + 1, stillRunning := false })).trans (g2_emit _ _)
+    · exact (g2_ppoll st t).trans (G2.of_eq rfl rfl : G2 (ppoll st t).1
+        { (ppoll st t).1 with runPolls := (ppoll st t).1.runPolls + 1 })
+
+theorem step_runIter (fuel : Nat) (st : St) : SigStep st (runIter fuel st) := by
+  unfold runIter
+  split
+  · exact SigStep.refl _
+  · split
+    · exact (g2_nextTimerMsec _).step
+    · split
+      · exact ((g2_nextTimerMsec _).trans (g2_ppollRun _ _)).step
+      · exact ((g2_nextTimerMsec _).trans (g2_ppollRun _ _)).step.trans (step_tickAfterPoll _ _ _)
+
+theorem step_runLoop (fuel : Nat) (n : Nat) : ∀ st : St, SigStep st (runLoop fuel n st) := by
+  induction n with
+  | zero => intro st; unfold runLoop; exact step_outOfFuel st
+  | succ k ih =>
+    intro st
+    unfold runLoop
+    split
+    · exact SigStep.refl _
+    · split
+      · exact SigStep.refl _
+      · exact (step_runIter _ _).trans (ih _)
+
+theorem step_run (fuel : Nat) (st : St) : SigStep st (run fuel st) := by
+  have h0 : SigStep st { (watchSignal st 2 0 (-5)).1 with stillRunning := true, inRun := true, runPolls := 0 } :=
+    (step_watchSignal st 2 0 (-5)).trans (g2_run_flags _).step
+  unfold run
+  split
+  · exact SigStep.refl _
+  · split
+    · exact h0.trans (step_runLoop _ _ _)
+    · exact ((h0.trans (step_runLoop _ _ _)).trans (g2_with_inRun _ _).step).trans (step_watchCancel _ _)
+
 theorem g2_destroyNotify (st : St) (a : Nat) : G2 st (destroyNotify st a) := by
   unfold destroyNotify
   split
@@ -959,8 +1057,9 @@ theorem sinv_applyOp (st : St) (op : Op) (i : SInv st) : SInv (applyOp st op) :=
         · exact SInv.of_same (st := s0) rfl rfl i0
         · exact SInv.of_same (st := s0) rfl rfl i0
         · exact SInv.of_same (st := s0) rfl rfl i0
-        · exact (step_tick _ _ _ i0).inv
-        · exact (step_tick _ _ _ i0).inv
+        · exact (((g2_with_stillRunning s0 true).step.trans (step_tick _ _ _)) i0).inv
+        · exact (((g2_with_stillRunning s0 true).step.trans (step_tick _ _ _)) i0).inv
+        · exact (step_run _ _ i0).inv
         · exact sinv_destroy _ i0
         · exact i0
 
@@ -1059,6 +1158,66 @@ theorem sigwalk_complete (fuel : Nat) : ∀ (st : St) (s : Int) (this : Option N
                     right
                     rw [aft_of_aft_cons a nx _ t i1.nodup hq]
                     exact h
+
+/-! ### the repaired walk (snapshot) -/
+
+/-- The repaired walk visits a sub-sequence of the snapshot, in snapshot order. -/
+theorem sigsnap_sublist (fuel : Nat) (s : Int) (l : List Nat) : ∀ st : St, (sigSnapLoopT fuel st s l).2.Sublist l := by
+  induction l with
+  | nil => intro st; simp [sigSnapLoopT]
+  | cons a rest ih =>
+    intro st
+    unfold sigSnapLoopT
+    split
+    · exact List.nil_sublist _
+    · split
+      · exact List.nil_sublist _
+      · split
+        · exact (ih _).trans (List.sublist_cons_self a rest)
+        · split
+          · exact List.nil_sublist _
+          · exact (ih _).cons₂ a
+
+/-- … and skips nobody: a watch of the snapshot that is still in the list when the walk returns normally
+    has been visited, whatever the callbacks registered or cancelled (their own watch included). -/
+theorem sigsnap_complete (fuel : Nat) (s : Int) (l : List Nat) : ∀ st : St, SInv st →
+    (sigSnapLoopT fuel st s l).1.status = .ok →
+    ∀ b ∈ l, b < st.heap.length → b ∈ (sigSnapLoopT fuel st s l).1.signals → b ∈ (sigSnapLoopT fuel st s l).2 := by
+  induction l with
+  | nil => intro st _ _ b hb; cases hb
+  | cons a rest ih =>
+    intro st i
+    have hstep := step_sigSnapLoopT fuel s (a :: rest) st i
+    unfold sigSnapLoopT at hstep ⊢
+    split
+    · rename_i h; intro hok; exact St.not_ok_absurd h hok
+    · split
+      · intro hok; exact absurd hok (St.status_fail_ne _ _)
+      · rename_i hnok hlive
+        split
+        · rename_i hnot
+          rw [if_neg hnok, if_neg hlive, if_pos hnot] at hstep
+          intro hok b hb hblt hbfin
+          simp only [List.mem_cons] at hb
+          cases hb with
+          | inl h =>
+            subst h
+            -- b is not in the list now, it is old, so it cannot be in the list at the end
+            exfalso
+            cases hstep.fresh b hbfin with
+            | inl h => simp at hnot; exact hnot h
+            | inr h => omega
+          | inr h => exact ih st i hok b h hblt hbfin
+        · split
+          · intro hok; exact absurd hok (St.status_fail_ne _ _)
+          · intro hok b hb hblt hbfin
+            simp only [List.mem_cons] at hb
+            cases hb with
+            | inl h => subst h; exact List.mem_cons_self
+            | inr h =>
+              apply List.mem_cons_of_mem
+              have f1 := step_sigCb fuel st a s i
+              exact ih _ f1.inv hok b h (Nat.lt_of_lt_of_le hblt f1.ext.len) hbfin
 
 /-! ### in list order -/
 
